@@ -7,7 +7,7 @@
   * numeric profiles are written once over the generic numeric interface (Float executes, ℝ is proved);
     the humidity profile is the one of Model/Psychro.lean (`ddDewPoint`, `ddHourlyDewPoint`, `ddHourlyRelHumid`);
   * date logic is integer arithmetic on minutes of the year on top of Model/Cal.lean;
-  * the IDF form is modelled at field level (`List String`) with numbers as opaque tokens (`NumTok`), plus an
+  * the IDF form is modelled at field level (`List String`) with fields as abstract tokens (`Tok`: numbers are opaque), plus an
     executable character-level renderer/lexer that is tied by correspondence only.
 
   Correspondence ops: Drv/C16.lean.  Theorems: Props/C16.lean.
@@ -108,16 +108,28 @@ def collectionDatetimes (d : Cal.D) : List Cal.DT :=
 
 /-! ### numbers as opaque tokens -/
 
-/-- A number as it passes through the IDF text: `render` is Python's `str(x)`, `parse` is `float(s)`
-    (`none` = ValueError), `zero` the literal `0` of the defaults, `toRat` the value used by the range
-    assertions of the constructors. -/
-class NumTok (ν : Type) where
-  render : ν → String
-  parse : String → Option ν
+/-- A field of the IDF object as a token of an abstract type `τ`, with the numbers `ν` it can carry.
+    `ofStr s` is the text `s` itself, `ofNum x` is Python's `str(x)`, `ofNat n` is `str(n)`; `text t` reads
+    the token as text (names, schedule names, enum words), `num? t` is `float(t)` (`none` = ValueError),
+    `int? t` is `int(t)`, `isYes t` is `t.lower() == 'yes'`; `zero` is the literal `0` of the defaults and
+    `toRat` the value used by the range assertions of the constructors.
+    The driver instantiates `τ = ν = String` (the real text); the theorems hold for every instance that obeys
+    the laws `num? (ofNum x) = some x`, `int? (ofNat n) = some n`, `text (ofStr s) = s`, ... (Props/C16.lean). -/
+class Tok (τ : Type) (ν : outParam Type) where
+  ofStr : String → τ
+  ofNum : ν → τ
+  ofNat : Nat → τ
+  text : τ → String
+  num? : τ → Option ν
+  int? : τ → Option Int
+  isYes : τ → Bool
+
+/-- The numbers: `zero` is the literal `0` of the defaults, `toRat` the value the range assertions test. -/
+class NumVal (ν : Type) where
   zero : ν
   toRat : ν → Rat
 
-open NumTok
+open Tok NumVal
 
 /-! ### the objects -/
 
@@ -193,52 +205,52 @@ def humTypeOfName? (s : String) : Option Psychro.HumType :=
 /-! ### `to_idf` at field level -/
 
 section idf
-variable {ν : Type} [NumTok ν]
+variable {τ ν : Type} [NumVal ν] [Tok τ ν]
 
 def yesNo (b : Bool) : String := if b then "Yes" else "No"
 
-/-- `str(<attribute>)` of one `ep_vals` cell. -/
-def slotText (d : DesignDay ν) : Slot → String
-  | .name => d.name
-  | .month => toString d.sky.date.month
-  | .day => toString d.sky.date.day
-  | .dayType => d.dayType
-  | .dbMax => render d.db.max
-  | .dbRange => render d.db.range
-  | .modType => d.db.modType
-  | .modSched => d.db.modSched
-  | .humType => humTypeName d.hum.ty
-  | .humSched => d.hum.schedule
+/-- `str(<attribute>)` of one `ep_vals` cell, as a token. -/
+def slotText (d : DesignDay ν) : Slot → τ
+  | .name => ofStr d.name
+  | .month => ofNat d.sky.date.month
+  | .day => ofNat d.sky.date.day
+  | .dayType => ofStr d.dayType
+  | .dbMax => ofNum d.db.max
+  | .dbRange => ofNum d.db.range
+  | .modType => ofStr d.db.modType
+  | .modSched => ofStr d.db.modSched
+  | .humType => ofStr (humTypeName d.hum.ty)
+  | .humSched => ofStr d.hum.schedule
   | .wbRange => match d.hum.wetBulbRange with
-    | .blank => ""
-    | .num x => render x
-  | .pressure => render d.hum.pressure
-  | .humValue => render d.hum.value
-  | .windSpeed => render d.wind.speed
-  | .windDir => render d.wind.dir
+    | .blank => ofStr ""
+    | .num x => ofNum x
+  | .pressure => ofNum d.hum.pressure
+  | .humValue => ofNum d.hum.value
+  | .windSpeed => ofNum d.wind.speed
+  | .windDir => ofNum d.wind.dir
   | .beamSched => match d.sky.kind with
-    | .base b _ => b
-    | _ => ""
+    | .base b _ => ofStr b
+    | _ => ofStr ""
   | .diffSched => match d.sky.kind with
-    | .base _ f => f
-    | _ => ""
+    | .base _ f => ofStr f
+    | _ => ofStr ""
   | .clearness => match d.sky.kind with
-    | .clear c => render c
-    | _ => ""
+    | .clear c => ofNum c
+    | _ => ofStr ""
   | .tauB => match d.sky.kind with
-    | .tau b _ _ => render b
-    | _ => ""
+    | .tau b _ _ => ofNum b
+    | _ => ofStr ""
   | .tauD => match d.sky.kind with
-    | .tau _ t _ => render t
-    | _ => ""
-  | .rain => yesNo d.hum.rain
-  | .snow => yesNo d.hum.snow
-  | .dst => yesNo d.sky.dst
+    | .tau _ t _ => ofNum t
+    | _ => ofStr ""
+  | .rain => ofStr (yesNo d.hum.rain)
+  | .snow => ofStr (yesNo d.hum.snow)
+  | .dst => ofStr (yesNo d.sky.dst)
   | .tauModel => match d.sky.kind with
-    | .tau _ _ true => tauName2017
-    | _ => tauName
-  | .blank => ""
-  | .lit s => s
+    | .tau _ _ true => ofStr tauName2017
+    | _ => ofStr tauName
+  | .blank => ofStr ""
+  | .lit s => ofStr s
 
 /-- the `ep_vals[k] = ...` assignments of one branch, on the slot list -/
 def applyOverrides (l : List Slot) (ov : List (Nat × Slot)) : List Slot :=
@@ -268,33 +280,38 @@ def layout (hum : String) (sky : SkyTag) : List Slot :=
   | .tau => dropLastN tauPops (applyOverrides l1 tauOverrides)
 
 /-- The value list `ep_vals` of `to_idf` after all assignments (strings as `str(val)` prints them). -/
-def toIdfFields (d : DesignDay ν) : List String :=
+def toIdfFields (d : DesignDay ν) : List τ :=
   (layout (humTypeName d.hum.ty) d.sky.kind.tag).map (slotText d)
 
 /-! ### `from_idf` at field level (`ep_fields`, index 0 is the object name) -/
 
-def fld (f : List String) (k : Nat) : Except Err String :=
+def fld (f : List τ) (k : Nat) : Except Err τ :=
   match f[k]? with
   | some s => .ok s
   | none => .error .index
 
-def numFld (f : List String) (k : Nat) : Except Err ν := do
+/-- a field read as text -/
+def strFld (f : List τ) (k : Nat) : Except Err String := do
+  let t ← fld f k
+  pure (text t)
+
+def numFld (f : List τ) (k : Nat) : Except Err ν := do
   let s ← fld f k
-  match (parse s : Option ν) with
+  match (num? s : Option ν) with
   | some x => .ok x
   | none => .error .value
 
 /-- `len(ep_fields) > g and ep_fields[k].lower() == 'yes'` -/
-def flagFld (f : List String) (g k : Nat) : Except Err Bool :=
+def flagFld (f : List τ) (g k : Nat) : Except Err Bool :=
   if g < f.length then do
     let s ← fld f k
-    pure (s.toLower == "yes")
+    pure (isYes s)
   else pure false
 
 /-- `int(s)` for the month / day fields -/
-def intFld (f : List String) (k : Nat) : Except Err Int := do
+def intFld (f : List τ) (k : Nat) : Except Err Int := do
   let s ← fld f k
-  match s.toInt? with
+  match int? s with
   | some n => .ok n
   | none => .error .value
 
@@ -302,19 +319,20 @@ def check (b : Bool) : Except Err Unit := if b then .ok () else .error .assert
 
 def between (lo : Rat) (x : ν) (hi : Rat) : Bool := decide (lo ≤ toRat x) && decide (toRat x ≤ hi)
 
-/-- `DesignDay.from_idf` on the field list, in the evaluation order of the source. -/
-def fromIdfFields (f : List String) : Except Err (DesignDay ν) := do
-  let name ← fld f iName
-  let dayType ← fld f iDayType
-  -- DryBulbCondition(float, float, str, str); range >= 0 asserted
+/-- `DryBulbCondition(float(f[5]), float(f[6]), f[7], f[8])`; the constructor asserts range >= 0. -/
+def readDryBulb (f : List τ) : Except Err (DryBulb ν) := do
   let dbMax : ν ← numFld f iDbMax
   let dbRange : ν ← numFld f iDbRange
-  let modType ← fld f iModType
-  let modSched ← fld f iModSched
+  let modType ← strFld f iModType
+  let modSched ← strFld f iModSched
   check (decide (0 ≤ toRat dbRange))
-  -- humidity
-  let hType ← fld f iHumType
-  let hv0 ← fld f iHumValue
+  pure ⟨dbMax, dbRange, modType, modSched⟩
+
+/-- the humidity part of `from_idf` (type, generic value with the `''` default, rain, snow, the value of
+    the HumidityRatio / Enthalpy cells, pressure, schedule; the constructor asserts the type name) -/
+def readHumidity (f : List τ) : Except Err (Humidity ν) := do
+  let hType ← strFld f iHumType
+  let hv0 ← strFld f iHumValue
   let hVal0 : ν ← if hv0 == "" then pure zero else numFld f iHumValue
   let rain ← flagFld f gRain iRain
   let snow ← flagFld f gSnow iSnow
@@ -323,15 +341,21 @@ def fromIdfFields (f : List String) : Except Err (DesignDay ν) := do
     else if hType == "Enthalpy" then numFld f iEnthalpy
     else pure hVal0
   let pressure : ν ← numFld f iPressure
-  let sched ← fld f iHumSched
+  let sched ← strFld f iHumSched
   let ty ← match humTypeOfName? hType with
     | some t => pure t
     | none => throw Err.assert
-  -- wind
+  pure ⟨ty, hVal, pressure, rain, snow, sched, .blank⟩
+
+/-- `WindCondition(float(f[16]), float(f[17]))`; the constructor asserts 0 <= direction <= 360. -/
+def readWind (f : List τ) : Except Err (Wind ν) := do
   let ws : ν ← numFld f iWindSpeed
   let wd : ν ← numFld f iWindDir
   check (between 0 wd 360)
-  -- date and sky
+  pure ⟨ws, wd⟩
+
+/-- date, daylight-saving flag and the sky condition by solar model name -/
+def readSky (f : List τ) : Except Err (Sky ν) := do
   let mo ← intFld f iMonth
   let da ← intFld f iDay
   let date ← match Cal.D.make mo da false with
@@ -340,7 +364,7 @@ def fromIdfFields (f : List String) : Except Err (DesignDay ν) := do
   let dst ← flagFld f gDst iDst
   let kind : SkyKind ν ←
     if gSkyModel < f.length then do
-      let model ← fld f iSkyModel
+      let model ← strFld f iSkyModel
       if model == "ASHRAEClearSky" then do
         let c : ν ← if gClearness < f.length then numFld f iClearness else pure zero
         check (between 0 c (6 / 5))
@@ -348,26 +372,33 @@ def fromIdfFields (f : List String) : Except Err (DesignDay ν) := do
       else if model == "ASHRAETau" || model == "ASHRAETau2017" then do
         let tb : ν ← if gTauB < f.length then numFld f iTauB else pure zero
         let td : ν ← if gTauD < f.length then numFld f iTauD else pure zero
-        pure (SkyKind.tau tb td (model.endsWith "2017"))
+        -- `sky_model.endswith('2017')`: of the two names of this branch only 'ASHRAETau2017' ends so
+        pure (SkyKind.tau tb td (model == "ASHRAETau2017"))
       else if model == "Schedule" then do
-        let b ← fld f iBeamSched
-        let df ← fld f iDiffSched
+        let b ← strFld f iBeamSched
+        let df ← strFld f iDiffSched
         pure (SkyKind.base b df)
       else pure (SkyKind.base "" "")
     else do
       check (between 0 (zero : ν) (6 / 5))
       pure (SkyKind.clear zero)
+  pure ⟨date, dst, kind⟩
+
+/-- `DesignDay.from_idf` on the field list, in the evaluation order of the source. -/
+def fromIdfFields (f : List τ) : Except Err (DesignDay ν) := do
+  let name ← strFld f iName
+  let dayType ← strFld f iDayType
+  let db ← readDryBulb f
+  let hum ← readHumidity f
+  let wind ← readWind f
+  let sky ← readSky f
   check (dayTypes.contains dayType)
-  pure { name := name, dayType := dayType,
-         db := ⟨dbMax, dbRange, modType, modSched⟩,
-         hum := ⟨ty, hVal, pressure, rain, snow, sched, .blank⟩,
-         wind := ⟨ws, wd⟩,
-         sky := ⟨date, dst, kind⟩ }
+  pure { name := name, dayType := dayType, db := db, hum := hum, wind := wind, sky := sky }
 
 /-- The field list `from_idf` sees for a written object: the object name, the values, and the text that
     follows the last separator (the last comment, which has lost its newline to `strip()`). -/
-def writtenFields (d : DesignDay ν) (tail : String) : List String :=
-  "SizingPeriod:DesignDay" :: toIdfFields d ++ [tail]
+def writtenFields (d : DesignDay ν) (tail : τ) : List τ :=
+  ofStr "SizingPeriod:DesignDay" :: toIdfFields d ++ [tail]
 
 /-! ### Location (`Site:Location`) at field level -/
 
@@ -380,17 +411,17 @@ structure Loc (ν : Type) where
 deriving DecidableEq, Repr
 
 /-- values written by `Location.to_idf` -/
-def locFields (l : Loc ν) : List String := [l.city, render l.lat, render l.lon, render l.tz, render l.elev]
+def locFields (l : Loc ν) : List τ := [ofStr l.city, ofNum l.lat, ofNum l.lon, ofNum l.tz, ofNum l.elev]
 
-def optNum (s : String) : Except Err ν :=
-  if s == "" then pure zero
-  else match (parse s : Option ν) with
+def optNum (t : τ) : Except Err ν :=
+  if text t == "" then pure zero
+  else match (num? t : Option ν) with
     | some x => .ok x
     | none => .error .value
 
 /-- `Location.from_idf` after `ep_fields.pop(0)`. -/
-def locFromFields (f : List String) : Except Err (Loc ν) := do
-  let city ← fld f 0
+def locFromFields (f : List τ) : Except Err (Loc ν) := do
+  let city ← strFld f 0
   let lat ← fld f 1
   let lon ← fld f 2
   let tz ← fld f 3
@@ -399,7 +430,7 @@ def locFromFields (f : List String) : Except Err (Loc ν) := do
   check (between (-90) latv 90)
   let lonv : ν ← optNum lon
   check (between (-180) lonv 180)
-  let tzv : ν ← match (parse tz : Option ν) with
+  let tzv : ν ← match (num? tz : Option ν) with
     | some x => pure x
     | none => throw Err.value
   check (between (-12) tzv 14)
@@ -414,31 +445,31 @@ structure DDY (ν : Type) where
 deriving DecidableEq, Repr
 
 /-- Object level of `DDY.to_file_string`: one field list per IDF object. -/
-def ddyObjects (y : DDY ν) (tail : String) : List String × List (List String) :=
+def ddyObjects (y : DDY ν) (tail : τ) : List τ × List (List τ) :=
   (locFields y.loc, y.days.map fun d => writtenFields d tail)
 
 /-- Object level of `DDY.from_ddy_file`: first location object, every design-day object, in order. -/
-def ddyFromObjects (o : List String × List (List String)) : Except Err (DDY ν) := do
+def ddyFromObjects (o : List τ × List (List τ)) : Except Err (DDY ν) := do
   let loc ← locFromFields o.1
   let days ← o.2.mapM fromIdfFields
   pure ⟨loc, days⟩
 
 /-! ### `from_ashrae_dict_heating` / `from_ashrae_dict_cooling` -/
 
-def lookup (kv : List (String × String)) (k : String) : Except Err String :=
+def lookup (kv : List (String × τ)) (k : String) : Except Err τ :=
   match kv.find? (·.1 == k) with
   | some p => .ok p.2
   | none => .error .index          -- KeyError (reported as the enum `index` here)
 
-def numKey (kv : List (String × String)) (k : String) : Except Err ν := do
+def numKey (kv : List (String × τ)) (k : String) : Except Err ν := do
   let s ← lookup kv k
-  match (parse s : Option ν) with
+  match (num? s : Option ν) with
   | some x => .ok x
   | none => .error .value
 
-def monthDate (kv : List (String × String)) : Except Err Cal.D := do
+def monthDate (kv : List (String × τ)) : Except Err Cal.D := do
   let s ← lookup kv "Month"
-  match s.toInt? with
+  match int? s with
   | none => .error .value
   | some m =>
     match Cal.D.make m 21 false with
@@ -446,7 +477,7 @@ def monthDate (kv : List (String × String)) : Except Err Cal.D := do
     | .error _ => .error .value
 
 /-- `DesignDay.from_ashrae_dict_heating(dict, location, use_990, pressure)`; `city` is `location.city`. -/
-def fromAshraeHeating (kv : List (String × String)) (city : String) (use990 : Bool) (pressure : ν) :
+def fromAshraeHeating (kv : List (String × τ)) (city : String) (use990 : Bool) (pressure : ν) :
     Except Err (DesignDay ν) := do
   let dbKey := if use990 then "DB990" else "DB996"
   let perc := if use990 then "99" else "99.6"
@@ -463,7 +494,7 @@ def fromAshraeHeating (kv : List (String × String)) (city : String) (use990 : B
 
 /-- `DesignDay.from_ashrae_dict_cooling(dict, location, use_010, pressure, tau)`; `one` is the default
     clearness `1` of `ASHRAEClearSky(date)`. -/
-def fromAshraeCooling (kv : List (String × String)) (city : String) (use010 : Bool) (pressure : ν)
+def fromAshraeCooling (kv : List (String × τ)) (city : String) (use010 : Bool) (pressure : ν)
     (tau : Option (ν × ν)) (one : ν) : Except Err (DesignDay ν) := do
   let dbKey := if use010 then "DB010" else "DB004"
   let wbKey := if use010 then "WB_DB010" else "WB_DB004"
@@ -530,23 +561,29 @@ def renderIdf (vals : List String) : Option String :=
     some (String.join ("SizingPeriod:DesignDay,\n" :: ls ++ ["\n"]))
 
 section chars
-variable {ν : Type} [NumTok ν]
-open NumTok
+variable {τ ν : Type} [NumVal ν] [Tok τ ν]
+open Tok
 
-def toIdf (d : DesignDay ν) : Option String := renderIdf (toIdfFields d)
+/-- `DesignDay.to_idf()` text (`τ` names the token instance that prints the numbers). -/
+def toIdf (τ : Type) {ν : Type} [NumVal ν] [Tok τ ν] (d : DesignDay ν) : Option String :=
+  renderIdf ((toIdfFields d : List τ).map text)
 
 /-- `DesignDay.from_idf(text, location)` (the location is passed through untouched). -/
-def fromIdf (s : String) : Except Err (DesignDay ν) :=
-  if (strip s).startsWith "SizingPeriod:DesignDay" then fromIdfFields (lexIdf s) else .error .assert
+def fromIdf (τ : Type) {ν : Type} [NumVal ν] [Tok τ ν] (s : String) : Except Err (DesignDay ν) :=
+  if (strip s).startsWith "SizingPeriod:DesignDay" then fromIdfFields ((lexIdf s).map (ofStr : String → τ))
+  else .error .assert
 
 /-- `Location.to_idf()`. -/
-def locToIdf (l : Loc ν) : String :=
-  "Site:Location,\n  " ++ l.city ++ ",\n  " ++ render l.lat ++ ",      !Latitude\n  " ++
-    render l.lon ++ ",     !Longitude\n  " ++ render l.tz ++ ",     !Time Zone\n  " ++
-    render l.elev ++ ";       !Elevation"
+def locToIdf (τ : Type) {ν : Type} [NumVal ν] [Tok τ ν] (l : Loc ν) : String :=
+  let r := fun (x : ν) => text (ofNum x : τ)
+  "Site:Location,\n  " ++ l.city ++ ",\n  " ++ r l.lat ++ ",      !Latitude\n  " ++
+    r l.lon ++ ",     !Longitude\n  " ++ r l.tz ++ ",     !Time Zone\n  " ++
+    r l.elev ++ ";       !Elevation"
 
-def locFromIdf (s : String) : Except Err (Loc ν) :=
-  if (strip s).startsWith "Site:Location" then locFromFields ((lexIdf s).drop 1) else .error .assert
+def locFromIdf (τ : Type) {ν : Type} [NumVal ν] [Tok τ ν] (s : String) : Except Err (Loc ν) :=
+  if (strip s).startsWith "Site:Location" then
+    locFromFields (((lexIdf s).drop 1).map (ofStr : String → τ))
+  else .error .assert
 
 end chars
 
@@ -588,21 +625,20 @@ def findObjects (kw : String) (text : String) : List String :=
   go (text.length + 1) text.toList
 
 section ddyfile
-variable {ν : Type} [NumTok ν]
 
 /-- `DDY.to_file_string()`. -/
-def ddyToString (y : DDY ν) : Option String := do
-  let ds ← y.days.mapM fun d => toIdf d
-  pure (locToIdf y.loc ++ "\n\n" ++ String.join (ds.map fun s => s ++ "\n\n"))
+def ddyToString (τ : Type) {ν : Type} [NumVal ν] [Tok τ ν] (y : DDY ν) : Option String := do
+  let ds ← y.days.mapM fun d => toIdf τ d
+  pure (locToIdf τ y.loc ++ "\n\n" ++ String.join (ds.map fun s => s ++ "\n\n"))
 
 /-- `DDY.from_ddy_file` on the file text. -/
-def ddyFromString (text : String) : Except Err (DDY ν) :=
+def ddyFromString (τ : Type) {ν : Type} [NumVal ν] [Tok τ ν] (text : String) : Except Err (DDY ν) :=
   match findObjects "Site:Location," text, findObjects "SizingPeriod:DesignDay," text with
   | [], _ => .error .assert
   | _, [] => .error .assert
   | l :: _, ds => do
-    let loc ← locFromIdf l
-    let days ← ds.mapM fun s => fromIdf s
+    let loc ← locFromIdf τ l
+    let days ← ds.mapM fun s => fromIdf τ s
     pure ⟨loc, days⟩
 
 end ddyfile
